@@ -57,7 +57,8 @@ TEXT = {
               "deterministic simulation: post-run branch oracle over many random draws"),
     "C08": _t("Seeded exploration; the CSV rows and the SIMULATOR_END counters are compared with the monitors' own "
               "record of what happened (times, deadlines, pools, resources, scheduler counts), then the same rows "
-              "are fed to the project's CSVReader whose reconstruction must match; timeout cuts act as crash points.",
+              "are fed to the project's CSVReader whose reconstruction must match; timeout cuts act as crash points, "
+              "sampled and, for small base worlds, enumerated at every microsecond of the base run.",
               "deterministic simulation: trace-vs-ground-truth oracle + project CSVReader on every trace"),
     "C04": _t("Seeded operation histories (allocate / allocate_multiple / deallocate / place / place-in-batch / "
               "remove / load / evict / copy / deepcopy, with refused requests injected at arbitrary points) on "
